@@ -44,6 +44,10 @@ pub struct ChanCfg {
     /// over the transactional cloud store (lazy enter, prepare / commit after every request)
     #[serde(default)]
     pub cloud: bool,
+    /// the validator vlsd installs: chain-aware wrapper around the simple validator; the funding
+    /// transaction is confirmed right after the set-up
+    #[serde(default)]
+    pub onchain: bool,
 }
 
 #[derive(Clone, Copy, Debug, PartialEq, Eq, Hash, PartialOrd, Ord, Serialize, Deserialize)]
@@ -61,6 +65,9 @@ pub enum S {
     OtherContent,
     /// fewer HTLC signatures than HTLCs (the last one is missing)
     MissingHtlcSig,
+    /// the counterparty's genuine signatures for the *previous* number with the same content:
+    /// byte for byte what the signer accepted last time if that content is the current one
+    PreviousNumber,
 }
 
 #[derive(Clone, Copy, Debug, PartialEq, Eq, Hash, Serialize, Deserialize)]
@@ -82,6 +89,8 @@ pub enum Op {
     GetPoint2(u64),
     Validate(u64, C, S),
     Validate1(u64, C),
+    /// phase-1 validate with the signatures of the previous number replayed
+    Validate1Replay(u64, C),
     Revoke(u64),
     SignLocal(u64),
     SignLocalRoot(u64),
@@ -106,7 +115,7 @@ impl Op {
             Op::GetPoint(_) => "GetPerCommitmentPoint",
             Op::GetPoint2(_) => "GetPerCommitmentPoint2",
             Op::Validate(..) => "ValidateCommitmentTx2",
-            Op::Validate1(..) => "ValidateCommitmentTx",
+            Op::Validate1(..) | Op::Validate1Replay(..) => "ValidateCommitmentTx",
             Op::Revoke(_) => "RevokeCommitmentTx",
             Op::SignLocal(_) => "SignLocalCommitmentTx2",
             Op::SignLocalRoot(_) => "SignCommitmentTx",
@@ -147,6 +156,8 @@ pub struct ChanState {
     pub ghost: Ghost,
     pub dead: bool,
     pub hsecrets: Vec<[u8; 32]>,
+    /// on-chain configurations: the funding transaction and the harness's copy of the chain
+    pub funding: Option<(lightning_signer::bitcoin::Transaction, crate::chain::SimChain)>,
 }
 
 pub struct ChanModel {
@@ -312,7 +323,15 @@ impl ChanModel {
             S::OtherContent => content(if c == C::A { C::B } else { C::A }, n),
             _ => cont.clone(),
         };
-        let (mut sig, mut hsigs) = p.cp_sign_holder_commitment(&s.cp, n, &point, &sign_content);
+        let (mut sig, mut hsigs) = if sv == S::PreviousNumber {
+            if n == 0 {
+                return None;
+            }
+            let prev_point = s.w().holder_point_raw(DBID, n - 1)?;
+            p.cp_sign_holder_commitment(&s.cp, n - 1, &prev_point, &content(c, n - 1))
+        } else {
+            p.cp_sign_holder_commitment(&s.cp, n, &point, &sign_content)
+        };
         if sv == S::OtherContent {
             // the number of HTLC signatures must match the claimed content
             let want = cont.out.len() + cont.inc.len();
@@ -395,23 +414,44 @@ impl Model for ChanModel {
             self.cfg.k,
             self.cfg.side,
             if self.cfg.cloud { ",cloud-store" } else { "" }
-        )
+        ) + if self.cfg.onchain { ",on-chain validator" } else { "" }
     }
 
     fn init(&self) -> ChanState {
         let mut cfg = WorldCfg::default();
         cfg.pv = self.cfg.pv;
         cfg.cloud = self.cfg.cloud;
+        cfg.onchain = self.cfg.onchain;
+        if self.cfg.onchain {
+            cfg.oracle_pubkeys = vec![crate::chain::oracle_pub(0)];
+        }
         let w = World::new(cfg);
         let cp = Cp::new(100);
         let r = w.new_channel(DBID);
         assert!(r.is_ok(), "new_channel: {:?}", r.tag());
+        let mut setup = self.setup_for(&w, &cp);
+        let mut funding = None;
+        if self.cfg.onchain {
+            // a first block, so that proofs are checked from then on, and a funding transaction
+            // that can really be put on chain
+            let mut chain = w.new_sim_chain();
+            let b = crate::chain::make_block(&chain.tip().0, chain.height() + 1, 0, vec![]);
+            assert!(w.connect(&mut chain, b, crate::chain::Delivery::Compact).is_ok());
+            let hp = w.holder_basepoints(DBID).unwrap();
+            let script = ChanParams { setup: setup.clone(), holder_pubkeys: hp }.funding_redeemscript().to_p2wsh();
+            let ftx = crate::chain::simple_tx(
+                vec![lightning_signer::bitcoin::OutPoint { txid: lightning_signer::bitcoin::Txid::from_raw_hash(lightning_signer::bitcoin::hashes::Hash::from_byte_array([0x71; 32])), vout: 0 }],
+                vec![(setup.channel_value_sat, script)],
+                0,
+            );
+            setup.funding_outpoint = lightning_signer::bitcoin::OutPoint { txid: ftx.compute_txid(), vout: 0 };
+            funding = Some((ftx, chain));
+        }
         w.end_request();
-        let setup = self.setup_for(&w, &cp);
         let hsecrets = (0..self.cfg.k + 6)
             .map(|n| w.holder_secret_raw(DBID, n).unwrap().secret_bytes())
             .collect();
-        ChanState { w: Some(w), cp, setup, params: None, ghost: Ghost::default(), dead: false, hsecrets }
+        ChanState { w: Some(w), cp, setup, params: None, ghost: Ghost::default(), dead: false, hsecrets, funding }
     }
 
     fn alive(&self, s: &ChanState) -> bool {
@@ -471,8 +511,11 @@ impl Model for ChanModel {
                             continue;
                         }
                         for c in [C::A, C::B] {
-                            for sv in [S::Valid, S::BadCommitSig, S::BadHtlcSig, S::OtherContent, S::MissingHtlcSig] {
+                            for sv in [S::Valid, S::BadCommitSig, S::BadHtlcSig, S::OtherContent, S::MissingHtlcSig, S::PreviousNumber] {
                                 if d == -2 && sv != S::Valid {
+                                    continue;
+                                }
+                                if sv == S::PreviousNumber && (d != 0 || n == 0) {
                                     continue;
                                 }
                                 if (sv == S::BadHtlcSig || sv == S::MissingHtlcSig) && c == C::A {
@@ -486,6 +529,9 @@ impl Model for ChanModel {
                 if self.cfg.phase1 && can_advance {
                     for c in [C::A, C::B] {
                         v.push(Op::Validate1(nh, c));
+                        if nh >= 1 {
+                            v.push(Op::Validate1Replay(nh, c));
+                        }
                     }
                 }
                 if self.cfg.pv >= 5 {
@@ -605,9 +651,21 @@ impl Model for ChanModel {
                 let r = s.w().setup_channel(DBID, &s.setup);
                 outcome_tag = r.tag();
                 if r.is_ok() {
+                    let first = !s.ghost.is_setup;
                     s.ghost.is_setup = true;
                     let hp = s.w().holder_basepoints(DBID).unwrap();
                     s.params = Some(ChanParams { setup: s.setup.clone(), holder_pubkeys: hp });
+                    if first {
+                        // on-chain configurations: the funding transaction confirms right away
+                        if let Some((ftx, chain)) = s.funding.as_mut() {
+                            let b = crate::chain::make_block(&chain.tip().0, chain.height() + 1, 1, vec![ftx.clone()]);
+                            let w = s.w.as_ref().unwrap();
+                            let rb = w.connect(chain, b, crate::chain::Delivery::Compact);
+                            if !rb.is_ok() {
+                                s.dead = true;
+                            }
+                        }
+                    }
                 }
             }
             Op::GetPoint(n) => {
@@ -642,8 +700,9 @@ impl Model for ChanModel {
                     outcome_tag = "skipped".into();
                 }
             }
-            Op::Validate1(n, c) => {
-                if let Some((cont, sig, hsigs)) = self.validate_msg(s, *n, *c, S::Valid) {
+            Op::Validate1(n, c) | Op::Validate1Replay(n, c) => {
+                let sv1 = if matches!(op, Op::Validate1Replay(..)) { S::PreviousNumber } else { S::Valid };
+                if let Some((cont, sig, hsigs)) = self.validate_msg(s, *n, *c, sv1) {
                     let p = s.params.as_ref().unwrap();
                     let point = s.w().holder_point_raw(DBID, *n).unwrap();
                     let (ctx, keys) = p.holder_commitment(*n, &point, &cont);
@@ -671,7 +730,7 @@ impl Model for ChanModel {
                     };
                     let r = s.w().chan_msg(DBID, Message::ValidateCommitmentTx(m));
                     outcome_tag = r.tag();
-                    self.handle_validate_reply(s, *n, S::Valid, &r, op, vios);
+                    self.handle_validate_reply(s, *n, sv1, &r, op, vios);
                 } else {
                     outcome_tag = "skipped".into();
                 }
@@ -1014,30 +1073,35 @@ pub fn configs(tier: Tier, side: Side, monitors: bool) -> Vec<ChanCfg> {
     let mut v = vec![];
     match (tier, side) {
         (Tier::Quick, Side::Holder) => {
-            v.push(ChanCfg { pv: 6, anchors: false, outbound: true, k: 2, side, core_letters: true, phase1: false, monitors, cloud: false });
-            v.push(ChanCfg { pv: 5, anchors: true, outbound: true, k: 2, side, core_letters: false, phase1: true, monitors, cloud: false });
-            v.push(ChanCfg { pv: 4, anchors: false, outbound: true, k: 2, side, core_letters: false, phase1: false, monitors, cloud: false });
+            v.push(ChanCfg { pv: 6, anchors: false, outbound: true, k: 2, side, core_letters: true, phase1: false, monitors, cloud: false, onchain: false });
+            v.push(ChanCfg { pv: 5, anchors: true, outbound: true, k: 2, side, core_letters: false, phase1: true, monitors, cloud: false, onchain: false });
+            v.push(ChanCfg { pv: 4, anchors: false, outbound: true, k: 2, side, core_letters: false, phase1: false, monitors, cloud: false, onchain: false });
+            if !monitors {
+                v.push(ChanCfg { pv: 6, anchors: false, outbound: true, k: 2, side, core_letters: true, phase1: false, monitors, cloud: false, onchain: true });
+            }
         }
         (Tier::Thorough, Side::Holder) => {
             for pv in [4u32, 5, 6] {
                 for anchors in [false, true] {
-                    v.push(ChanCfg { pv, anchors, outbound: true, k: 3, side, core_letters: true, phase1: true, monitors, cloud: false });
+                    v.push(ChanCfg { pv, anchors, outbound: true, k: 3, side, core_letters: true, phase1: true, monitors, cloud: false, onchain: false });
                 }
             }
-            v.push(ChanCfg { pv: 6, anchors: false, outbound: false, k: 3, side, core_letters: true, phase1: true, monitors, cloud: false });
+            v.push(ChanCfg { pv: 6, anchors: false, outbound: false, k: 3, side, core_letters: true, phase1: true, monitors, cloud: false, onchain: false });
+            v.push(ChanCfg { pv: 6, anchors: false, outbound: true, k: 3, side, core_letters: true, phase1: true, monitors, cloud: false, onchain: true });
+            v.push(ChanCfg { pv: 5, anchors: true, outbound: true, k: 3, side, core_letters: true, phase1: true, monitors, cloud: false, onchain: true });
         }
         (Tier::Quick, Side::Cp) => {
-            v.push(ChanCfg { pv: 6, anchors: false, outbound: true, k: 3, side, core_letters: false, phase1: false, monitors, cloud: false });
+            v.push(ChanCfg { pv: 6, anchors: false, outbound: true, k: 3, side, core_letters: false, phase1: false, monitors, cloud: false, onchain: false });
         }
         (Tier::Thorough, Side::Cp) => {
-            v.push(ChanCfg { pv: 6, anchors: false, outbound: true, k: 4, side, core_letters: false, phase1: true, monitors, cloud: false });
-            v.push(ChanCfg { pv: 6, anchors: true, outbound: true, k: 3, side, core_letters: false, phase1: true, monitors, cloud: false });
+            v.push(ChanCfg { pv: 6, anchors: false, outbound: true, k: 4, side, core_letters: false, phase1: true, monitors, cloud: false, onchain: false });
+            v.push(ChanCfg { pv: 6, anchors: true, outbound: true, k: 3, side, core_letters: false, phase1: true, monitors, cloud: false, onchain: false });
         }
     }
     if monitors {
         // the same histories over the transactional store (C10 / C11 clauses about it)
         let k = if side == Side::Cp { 3 } else { 2 };
-        v.push(ChanCfg { pv: 6, anchors: false, outbound: true, k, side, core_letters: side == Side::Holder, phase1: tier == Tier::Thorough, monitors, cloud: true });
+        v.push(ChanCfg { pv: 6, anchors: false, outbound: true, k, side, core_letters: side == Side::Holder, phase1: tier == Tier::Thorough, monitors, cloud: true, onchain: false });
     }
     v
 }
@@ -1047,8 +1111,14 @@ pub fn explore(tier: Tier, side: Side, monitors: bool, wall_s: f64) -> ChanRun {
     let mut stats = BfsStats { closed: true, ..Default::default() };
     let mut found = vec![];
     let mut models = vec![];
-    let per = wall_s / cfgs.len() as f64;
-    for cfg in cfgs {
+    // what a configuration that closes early does not use is available to the later ones
+    let t0 = std::time::Instant::now();
+    let n = cfgs.len();
+    let mut cfgs = cfgs;
+    // small ones (old protocol versions) first
+    cfgs.sort_by_key(|c| (c.pv >= 6, c.onchain));
+    for (i, cfg) in cfgs.into_iter().enumerate() {
+        let per = (wall_s - t0.elapsed().as_secs_f64()).max(1.0) / (n - i) as f64;
         let m = ChanModel { cfg };
         let lim = Limits { max_depth: 40, max_states: 2_000_000, wall_s: per };
         let st = bfs(&m, &lim, &mut found);
@@ -1077,6 +1147,7 @@ pub fn replay_ops(v: &Value) -> Vec<Vio> {
         phase1: true,
         monitors: true,
         cloud: false,
+        onchain: false,
     };
     let ops: Vec<Op> = serde_json::from_value(v["ops"].clone()).unwrap();
     let m = ChanModel { cfg };
